@@ -9,7 +9,7 @@ import (
 
 func init() {
 	register(&propDef{
-		ID: "C19", Level: "other", Run: runC19,
+		ID: "C19", Level: "other", Run: withShared(runC19, share{"C09", runC09, ruleIs("counter-lockstep")}),
 		Explanation: "THIN: only the gating and bounding clauses of the property are decided, not the capacity bound itself. The request-table callback is invoked from one function only; every call chain to it from an exported method passes the Pending->Normal transition of SetStatus or the status != Pending test of the queue entry; with no table yet it is dominated by playerCount >= minInitialPlayers and by the queue holding at least that many; every iteration that opens a table is entered under waterLevel >= minInitialPlayers and pops either the water level or, for the last table, the whole queue when that is below the maximum; the players handed to the assign callback are at most the table's outstanding requirement, which is decremented by the same amount; a top-up pops at most the computed count. That the water level itself never exceeds the capacity, and that initial tables get at least the minimum, is floor/ceil arithmetic over settings and is NOT decided (a counterexample for (max 6, min 5, 13 registrants) is visible by hand, see DESIGN.md).",
 		Trusted:     commonTrusted,
 		Assumptions: []string{"status constants are resolved by name (exported API)"},
